@@ -233,8 +233,9 @@ func (t *T) Violate(clause, key, what string, witness map[string]any) {
 func (t *T) Inconclusive(reason, sample string) {
 	t.W.Res.Inconclusive[reason]++
 	if len(t.W.Res.InconSamples[reason]) < 3 {
-		if len(sample) > 300 {
-			sample = sample[:300] + "…"
+		sample = fmt.Sprintf("[%s:%d] %s", t.Stratum.Name, t.Index, sample)
+		if len(sample) > 1500 {
+			sample = sample[:1500] + "…"
 		}
 		t.W.Res.InconSamples[reason] = append(t.W.Res.InconSamples[reason], sample)
 	}
